@@ -591,6 +591,21 @@ pub fn run(rng: &mut Rng, thorough: bool, corpus: &[String]) -> Run {
         run.count("directed:tcp-capacity");
         run_case_plan(&mut run, rng, &cfg, 200, false, false, plan);
     }
+    // directed (known finding F7): TCP, initial sequence 64511, a round that uses all 512 sequence numbers:
+    // the next round restarts at 64511 and reuses them
+    {
+        let mut cfg = gen_cfg(rng, thorough);
+        while !cfg.builder_ok() { cfg = gen_cfg(rng, thorough); }
+        cfg.proto = 't'; cfg.pd = Pd::Src(5000); cfg.first = 1; cfg.max = 30; cfg.inflight = 24; cfg.strat = 'c'; cfg.v6 = false;
+        cfg.max_rounds = None; cfg.min_round = 0; cfg.max_round = 1000; cfg.grace = 0; cfg.initial = 64511;
+        let mut plan = VecDeque::new();
+        let mut v = vec!['a'; 511]; v.push('o');
+        plan.push_back((v, 1001));
+        plan.push_back((vec![], 0));
+        plan.push_back((vec![], 1001));
+        run.count("directed:tcp-wrap-reuse");
+        run_case_plan(&mut run, rng, &cfg, 3, false, false, plan);
+    }
     // directed: stale Awaited slots + sequence wrap-around: round 0 leaves many probes awaiting, then short
     // rounds until the sequence wraps back to the initial sequence, with junk aimed at the stale slots
     for i in 0..(if thorough { 12 } else { 3 }) {
